@@ -90,6 +90,20 @@ def generate(seed, tier="quick"):
     if mrng.random() < 0.2:
         # the observed object is mutated after the comparison (the read-back compares before it mutates, too)
         W.add_mutation_test(mrng, prog["files"][0], style=mrng.choice(["rec", "assert"]))
+    krng = sub(seed, "kwonly")
+    if krng.random() < 0.1:
+        # a keyword-only dataclass whose required field follows optional ones (which hold their defaults, or not)
+        f = prog["files"][0]
+        fields = [["n", ["str", krng.choice(["build", "x", ""])]]]
+        if krng.random() < 0.4:
+            fields.insert(0, ["r", ["int", krng.choice([3, 5])]])
+        if krng.random() < 0.3:
+            fields.insert(len(fields) - 1, ["t", ["list", [["int", 1]] if krng.random() < 0.5 else []]])
+        val = ["dc", "KW", fields]
+        if krng.random() < 0.3:
+            val = ["list", [val, ["int", 0]]]
+        f["sites"]["kw1"] = {"op": krng.choice(["eq", "eq", "in"]), "place": krng.choice(["direct", "func"]), "arg": None, "prev": None}
+        krng.choice(f["tests"])["events"].append({"t": "cmp", "eid": "ekw1", "site": "kw1", "vals": [val], "style": krng.choice(["assert", "rec"])})
     wrng = sub(seed, "twin")
     if wrng.random() < 0.1:
         # a second module with the same text layout (same helper functions on the same lines): call sites of different files stay apart
